@@ -157,14 +157,21 @@ def repo_build(kind="hooked", targets=("bloch", "bloch_update", "bloch_http")):
     flags = "-D%s" % GUARD
     btype = "Release"
     if kind == "asan":
-        flags += " -O1 -g -fsanitize=address,undefined -fno-sanitize-recover=undefined -fno-omit-frame-pointer"
+        # signed overflow / out-of-range float->int conversions are outside what the documentation fixes; they are
+        # neither a crash nor a memory error and are excluded (DESIGN.md, C12)
+        flags += (" -O1 -g -fsanitize=address,undefined -fno-sanitize=signed-integer-overflow,float-cast-overflow"
+                  " -fno-sanitize-recover=undefined -fno-omit-frame-pointer")
         btype = "None"
+    stamp = os.path.join(bdir, ".verif_flags")
+    if os.path.exists(bdir) and (not os.path.exists(stamp) or open(stamp).read() != flags):
+        shutil.rmtree(bdir, ignore_errors=True)
     if not os.path.exists(os.path.join(bdir, "build.ninja")):
         os.makedirs(bdir, exist_ok=True)
         rc, out = sh(["cmake", "-S", REPO, "-B", bdir, "-G", "Ninja", "-DCMAKE_BUILD_TYPE=" + btype,
                       "-DCMAKE_CXX_FLAGS=" + flags], timeout=600)
         if rc != 0:
             raise RuntimeError("cmake configure failed:\n" + out[-3000:])
+        open(stamp, "w").write(flags)
     rc, out = sh(["cmake", "--build", bdir, "-j", str(NCPU), "--target"] + list(targets), timeout=1800)
     if rc != 0:
         raise RuntimeError("build of /repo (%s) failed:\n%s" % (kind, out[-4000:]))
@@ -186,7 +193,7 @@ def cpp_driver(name, kind="hooked", extra_flags="", libs=("bloch_runtime", "bloc
         return outp
     flags = "-std=c++20 -O1 -D%s -I%s/src -I%s/harness/cpp %s" % (GUARD, REPO, VERIF, extra_flags)
     if kind == "asan":
-        flags += " -g -fsanitize=address,undefined -fno-sanitize-recover=undefined"
+        flags += " -g -fsanitize=address,undefined -fno-sanitize=signed-integer-overflow,float-cast-overflow -fno-sanitize-recover=undefined"
     cmd = "g++ %s %s %s %s -lpthread -o %s" % (flags, src, " ".join(libfiles), link_flags, outp)
     rc, out = sh(cmd, timeout=900)
     if rc != 0:
